@@ -33,6 +33,7 @@ CONSTANTS
   QsShapes,     \* subset of 1..6
   LcShapes,     \* subset of 1..6
   MaxOps,       \* operations per history
+  WfSet,        \* linear codes: values of the public option check_well_formedness to set up with
   Emit,         \* print REPLAY lines
   Excused       \* known deviations of the tree: set of <<scheme, adversary-plan name>>
 
@@ -143,6 +144,7 @@ QsShape(i) ==
     [] i = 6 -> {<<l, 1, 1>> : l \in L} \cup {<<l, 2, 2>> : l \in L}              \* k = 2 labels, all polynomials
     [] i = 7 -> {<<l, 1, 5>> : l \in L} \cup {<<1, 2, 6>>}                        \* the special points -1 and 0
     [] i = 8 -> {<<l, 1, 7>> : l \in L} \cup {<<l, 2, 5>> : l \in L}              \* the special points 1 and -1
+    [] i = 10 -> {<<1, 1, 1>>} \cup {<<l, 2, 1>> : l \in L \ {1}}                 \* disjoint groups that share one point value
     [] i = 9 -> {<<l, 1, 1>> : l \in L} \cup {<<UnknownLabel, 1, 1>>}             \* a query for a polynomial that was never committed (C17)
 
 LastL == MaxPolys
@@ -209,7 +211,7 @@ LcContrib(lc) == \E l \in LcLabels(lc) : LcForm(lc, L)[l] # 0 /\ Contributing(po
 ProverEvents(plist, pt, op, g) ==
   CASE S = "hyrax" -> Flatten([j \in DOMAIN plist |-> HyraxEntryEvents(plist[j].src, pt, <<op, g, 10 * j>>)])
     [] LinCode(S)  -> Flatten([j \in DOMAIN plist |->
-                         LinEntryEvents(plist[j].src, pt, <<op, g, 10 * j>>, <<op, g, 10 * j>>, TRUE)])
+                         LinEntryEvents(plist[j].src, pt, <<op, g, 10 * j>>, <<op, g, 10 * j>>, keys.wf)])
     [] OTHER       -> ChalEvents(S, [j \in DOMAIN plist |-> plist[j].bound # NONE])
 
 \* prove the groups of a query set one after the other; plist entries are [src, bound]
@@ -291,14 +293,15 @@ Components ==
     [] S = "ipa" -> {"replace:l0", "replace:r_last", "replace:final_comm_key", "replace:c"}
                     \cup (IF \E l \in L : polys[l].hid # NONE THEN {"replace:hiding_comm", "replace:rand"} ELSE {})
     [] S = "hyrax" -> {"replace:com_eval", "replace:com_d", "replace:com_b", "replace:z0", "replace:z_d", "replace:z_b"}
-    [] OTHER -> {"replace:v0", "replace:wf0", "replace:col0", "replace:path0"}
+    [] OTHER -> {"replace:v0", "replace:col0", "replace:path0"} \cup (IF keys.wf THEN {"replace:wf0"} ELSE {})
+ForgeKinds == {"forge_columns", "forge_stretch", "forge_nocolumns"}
 Shapes ==
   CASE S = "ipa" -> {<<"rounds", 1>>, <<"rounds", -1>>, <<"rounds_unequal", 0>>, <<"drop_hiding_comm", 0>>}
     [] S = "pst13" -> {<<"wlen", 1>>, <<"wlen", -1>>}
     [] S = "hyrax" -> {<<"zlen", 1>>, <<"zlen", -1>>, <<"inner_empty", 0>>, <<"inner_trunc", 0>>}
-    [] LinCode(S) -> {<<"drop_wf", 0>>, <<"cols_repeat", 0>>, <<"cols_shift", 0>>, <<"cols_trunc", 1>>,
+    [] LinCode(S) -> (IF keys.wf THEN {<<"drop_wf", 0>>} ELSE {}) \cup {<<"cols_repeat", 0>>, <<"cols_shift", 0>>, <<"cols_trunc", 1>>,
                       <<"v_trunc", 0>>, <<"v_extend", 0>>, <<"path_sibling", 0>>, <<"inner_empty", 0>>,
-                      <<"forge_columns", 0>>, <<"forge_stretch", 0>>}
+                      <<"forge_columns", 0>>, <<"forge_stretch", 0>>, <<"forge_nocolumns", 0>>}
     [] OTHER -> {}
 
 FirstKey(st) == CHOOSE key \in ClaimKeys(st) : \A k2 \in ClaimKeys(st) : ~LexLess(k2, key)
@@ -321,10 +324,10 @@ PlansC03(st) ==
   \cup {Plan("component", "not_accept", <<ProofMut(1, c, 0), FalseValue(st)>>) : c \in Components}
   \* shape mutations, together with a false claimed value
   \cup {Plan("shape", "not_accept", <<ProofMut(1, sh[1], sh[2]), FalseValue(st)>>) :
-          sh \in {x \in Shapes : x[1] \notin {"forge_columns", "forge_stretch"}}}
+          sh \in {x \in Shapes : x[1] \notin ForgeKinds}}
   \* crafted linear-code proofs (they come with their own false value); single-polynomial groups
   \cup {Plan("forge", "not_accept", <<ProofMut(1, sh[1], sh[2])>>) :
-          sh \in {x \in Shapes : x[1] \in {"forge_columns", "forge_stretch"} /\ Len(GroupsOfStmt(st)[1].labels) = 1
+          sh \in {x \in Shapes : x[1] \in ForgeKinds /\ Len(GroupsOfStmt(st)[1].labels) = 1
                                    /\ (x[1] = "forge_stretch" => S # "brakedown")}}
   \* proof lists of the wrong length
   \cup (IF st.kind # "open"
@@ -349,6 +352,19 @@ PlansC04(st) ==
   \cup {Plan("foreign_shifted", "not_accept", <<[M("foreign_shifted") EXCEPT !.l = ll[1], !.l2 = ll[2]]>>) :
           ll \in {x \in BoundedLabels \X BoundedLabels : x[1] # x[2] /\ S # "sonic"}}
 
+\* position of the squeeze that yields the opening challenge of claim (group g, position i) within batch_check
+GroupFlags(st, gr) == [j \in DOMAIN gr.labels |-> st.comms[gr.labels[j]].lbound # NONE]
+SqIndex(st, g, i) ==
+  LET grs == Groups(st.qs)
+      RECURSIVE Before(_)
+      Before(k) == IF k = 0 THEN 0 ELSE Len(ChalEvents(S, GroupFlags(st, grs[k]))) + Before(k - 1)
+  IN Before(g - 1) + ChalIndex(S, GroupFlags(st, grs[g]), i)
+WKey(st, g, i) == LET gr == Groups(st.qs)[g] IN <<gr.labels[i], gr.pt>>
+WeightedCands(st) ==
+  LET grs == Groups(st.qs) IN
+  {c \in (DOMAIN grs) \X (1..MaxPolys) \X (DOMAIN grs) \X (1..MaxPolys) :
+      /\ c[1] < c[3] /\ c[2] <= Len(grs[c[1]].labels) /\ c[4] <= Len(grs[c[3]].labels)
+      /\ WKey(st, c[1], c[2]) # WKey(st, c[3], c[4])}
 Subsets2(K) == {T \in SUBSET K : Cardinality(T) \in {1, 2, 3}}
 PlansC05(st) ==
   LET K == ClaimKeys(st)
@@ -364,6 +380,16 @@ PlansC05(st) ==
           kd \in {"list_empty", "list_trunc", "list_extend"} \cup
                  (IF Cardinality(PLs(st.qs)) >= 2 /\ ContribLabels # {} THEN {"list_swap", "list_dup"} ELSE {})}
   \cup {Plan("honest", "accept", <<>>)}
+  \* errors weighted with the opening challenges (which depend on the sponge state only, so the party that
+  \* transports the statement can compute them): xi_a * e_a + xi_b * e_b = 0 for claims of two DIFFERENT
+  \* query points.  Only the verifier's own per-point randomizers separate the two equations.
+  \cup (IF S \in {"marlin", "sonic", "pst13"}
+        THEN {Plan("cancel_weighted", "not_accept",
+                   <<[M("value_weighted") EXCEPT !.l = WKey(st, c[1], c[2])[1], !.pt = WKey(st, c[1], c[2])[2],
+                                                 !.l2 = WKey(st, c[3], c[4])[1], !.pt2 = WKey(st, c[3], c[4])[2],
+                                                 !.k = SqIndex(st, c[1], c[2]), !.d = SqIndex(st, c[3], c[4])]>>) :
+                c \in WeightedCands(st)}
+        ELSE {})
 
 \* combinations with two distinct polynomials of non-zero coefficient, queried somewhere
 KeepSumCands(st) == {c \in (DOMAIN st.lcs) \X st.qs :
@@ -455,6 +481,7 @@ ApplyToStmt(st, m) ==
     [] m.kind = "value" ->
          [st EXCEPT !.deltas[<<m.l, m.pt>>] = @ + (CASE m.pat = "minus" -> -1 [] m.pat = "plus2" -> 2 [] OTHER -> 1)]
     [] m.kind \in {"value_other", "value_at"} -> [st EXCEPT !.deltas[<<m.l, m.pt>>] = 1]
+    [] m.kind = "value_weighted" -> [st EXCEPT !.deltas[<<m.l, m.pt>>] = @ + 1, !.deltas[<<m.l2, m.pt2>>] = @ - 1]
     [] m.kind = "point" ->
          IF st.kind = "open"
          THEN [st EXCEPT !.pt = m.pt2,
@@ -473,7 +500,7 @@ ApplyToStmt(st, m) ==
     [] m.kind = "random_comm" -> [st EXCEPT !.comms[m.l].plain = "random"]
     [] m.kind = "sponge_perturb" -> [st EXCEPT !.pre = <<AB(99, 0, 0, 0)>>]
     [] m.kind = "vk_mut" -> [st EXCEPT !.vkmut = m.comp]
-    [] m.kind = "proof_mut" /\ m.comp \in {"forge_columns", "forge_stretch"} ->
+    [] m.kind = "proof_mut" /\ m.comp \in ForgeKinds ->
          [st EXCEPT !.deltas[FirstKey(st)] = 1]
     [] m.kind = "lc_coeff" ->
          LET j == LcByLabel(st.lcs, m.l) IN [st EXCEPT !.lcs[j].terms[m.k + 1][1] = @ + 1]
@@ -654,16 +681,16 @@ ClaimsTrue(st) ==
 
 \* --------------------------------------------------------------------------
 Init ==
-  /\ pc = "setup" /\ pp = [maxdeg |-> 0, nv |-> NONE, cls |-> ""]
-  /\ keys = [sup |-> 0, hid |-> 0, nobounds |-> TRUE, bounds |-> <<>>, cls |-> "", maxdeg |-> 0]
+  /\ pc = "setup" /\ pp = [maxdeg |-> 0, nv |-> NONE, cls |-> "", wf |-> TRUE]
+  /\ keys = [sup |-> 0, hid |-> 0, nobounds |-> TRUE, bounds |-> <<>>, cls |-> "", maxdeg |-> 0, wf |-> TRUE]
   /\ polys = <<>> /\ rng = TRUE /\ ops = <<>> /\ prs = <<>> /\ spP = <<>> /\ spAfter = <<>>
   /\ stmts = <<>> /\ adv = <<>> /\ advname = "" /\ want = "" /\ spV = <<>> /\ outs = <<>> /\ ser = <<>>
 
 Setup ==
   /\ pc = "setup"
-  /\ \E md \in MaxDegs, nv \in Nvs :
+  /\ \E md \in MaxDegs, nv \in Nvs, wf \in (IF LinCode(S) THEN WfSet ELSE {TRUE}) :
        LET c == SetupClass(S, md, nv) IN
-       /\ pp' = [maxdeg |-> md, nv |-> nv, cls |-> c]
+       /\ pp' = [maxdeg |-> md, nv |-> nv, cls |-> c, wf |-> wf]
        /\ pc' = IF c = "ok" THEN "trim" ELSE "done"
   /\ UNCHANGED <<keys, polys, rng, ops, prs, spP, spAfter, stmts, adv, advname, want, spV, outs, ser>>
 
@@ -672,7 +699,7 @@ Trim ==
   /\ \E k \in KeySpace(pp.maxdeg) :
        LET c == TrimClass(S, pp.maxdeg, k) IN
        /\ HonestMode => c = "ok"
-       /\ keys' = [sup |-> k.sup, hid |-> k.hid, nobounds |-> k.nobounds, bounds |-> k.bounds, cls |-> c,
+       /\ keys' = [sup |-> k.sup, hid |-> k.hid, nobounds |-> k.nobounds, bounds |-> k.bounds, cls |-> c, wf |-> pp.wf,
                    maxdeg |-> EffMax(S, pp.maxdeg)]
        /\ pc' = IF c = "ok" THEN "commit" ELSE "done"
   /\ UNCHANGED <<pp, polys, rng, ops, prs, spP, spAfter, stmts, adv, advname, want, spV, outs, ser>>
@@ -721,7 +748,8 @@ Check ==
   /\ LET k == Len(outs) + 1
          r == CheckOp(stmts[k], prs[k], spV) IN
      /\ outs' = Append(outs, [res |-> r.res, singles |-> r.singles, lock |-> r.sp = spAfter[k],
-                              true |-> ClaimsTrue(stmts[k])])
+                              true |-> ClaimsTrue(stmts[k]),
+                              vsp |-> SubSeq(r.sp, Len(spV) + 1, Len(r.sp))])   \* the events of this call
      /\ spV' = r.sp
      /\ pc' = IF k = Len(ops) THEN "done" ELSE "check"
   /\ UNCHANGED <<pp, keys, polys, rng, ops, prs, spP, spAfter, stmts, adv, advname, want, ser>>
@@ -760,17 +788,22 @@ TypeOK == pc \in {"setup", "trim", "commit", "open", "adv", "check", "done"}
 
 \* --------------------------------------------------------------------------
 \* behaviours for the harness: one JSON object per terminal state
+EventShape(e) == IF e[1] = 1 THEN (IF Len(e) = 1 THEN "S" ELSE "F") ELSE IF e[1] = 2 THEN "A" ELSE "I"
+ShapeOf(ev) == [i \in DOMAIN ev |-> EventShape(ev[i])]
 ExpClass(c) == Expect(c)
 OpJson(o) == [kind |-> o.kind, labels |-> o.labels, pt |-> o.pt,
               qs |-> SortTuples(o.qs), lcs |-> o.lcs]
 Behaviour ==
   [prop |-> Mode, scheme |-> S, tag |-> advname,
-   max_degree |-> pp.maxdeg, num_vars |-> pp.nv,
+   max_degree |-> pp.maxdeg, num_vars |-> pp.nv, wf |-> pp.wf,
    supported |-> keys.sup, hiding |-> keys.hid, bounds |-> keys.bounds, nobounds |-> keys.nobounds,
    polys |-> polys, rng |-> rng,
    ops |-> [k \in DOMAIN ops |-> OpJson(ops[k])],
    adv |-> adv, ser |-> ser,
-   model |-> [k \in DOMAIN outs |-> [res |-> outs[k].res, singles |-> outs[k].singles, lock |-> outs[k].lock]],
+   model |-> [k \in DOMAIN outs |-> [res |-> outs[k].res, singles |-> outs[k].singles, lock |-> outs[k].lock,
+                                     \* the two schedules of Transcript.tla, for comparison with the logged sponge calls
+                                     spp |-> ShapeOf(SubSeq(spAfter[k], (IF k = 1 THEN 0 ELSE Len(spAfter[k - 1])) + 1, Len(spAfter[k]))),
+                                     spv |-> ShapeOf(outs[k].vsp)]],
    expect |-> [setup |-> ExpClass(pp.cls),
                trim |-> IF keys.cls = "" THEN "any" ELSE ExpClass(keys.cls),
                commit |-> IF polys = <<>> THEN "any" ELSE ExpClass(CommitClass(S, pp.maxdeg, pp.nv, keys, polys, rng)),
@@ -780,6 +813,9 @@ Behaviour ==
                                      THEN (IF k \notin DOMAIN outs THEN "any"
                                            ELSE IF outs[k].res = "accept" THEN "accept" ELSE "not_accept")
                                      ELSE IF want = "accept" \/ adv = <<>> THEN "accept"
+                                     \* a crafted proof comes with the value IT proves, which is the true one for
+                                     \* degenerate polynomials (zero, constants): the harness evaluates falsity
+                                     ELSE IF advname = "forge" THEN "not_accept_if_false"
                                      ELSE IF k \in TouchedOps /\ Cardinality(TouchedOps) = 1 THEN "not_accept"
                                      ELSE "any",
                            lockstep |-> IF adv = <<>> THEN "yes" ELSE "any"]]]]
